@@ -52,7 +52,7 @@ ASSUMPTIONS = [
     "after each of them are exactly the states reachable between the internal syscalls)",
     "library in sequential mode (_num_processes -> 1)",
 ]
-PROBES = ["parallel_crash_case", "crash_in_rmtree", "crash_between_trees_and_binning", "crash_after_create_before_write", "crash_in_hdf5_write", "prior_with_trees"]
+PROBES = ["main_process_killed_alone", "parallel_crash_case", "crash_in_rmtree", "crash_between_trees_and_binning", "crash_after_create_before_write", "crash_in_hdf5_write", "prior_with_trees"]
 REAL_VS_STUB = dict(
     real="all of yaw, numpy tofile, pickle, PyYAML, h5py/HDF5, the kernel file system (tmpfs), real process death; the next use runs in a real, pristine process (child of a zygote forked before the case touches the library)",
     stub="fault injection by LD_PRELOAD (crashfs/shim.c); directory listing order (seeded permutation of os.scandir)",
@@ -84,6 +84,9 @@ def gen_case(prng: Prng, tier: str, i: int) -> dict:
             workers=prng.choice([2, 3]),
             sched_seed=prng.below(1 << 40),
             policy=prng.choice(["prng", "prng", "last"]),
+            # who dies: the whole process group, or the main process alone (its children are
+            # orphaned, keep running and may notice -- timed waits then outlast their timeouts)
+            kill_mode="main" if (i // len(kinds)) % 2 and base in ("create", "overwrite") else "all",
         )
     return dict(
         prop=PROP,
@@ -256,6 +259,8 @@ class Scenario:
             self.new = _random_records(case, case["n_new"], case["chunksize"])
         self.centers = _centers(case, {k_: v for k_, v in self.new.items() if k_ != "_rad"}, self.old)
         self.target = "cat"  # relative to the work directory
+        # prefix of the result files; every other scenario uses one that contains a dot
+        self.cd_name = "cd" if case["data_seed"] % 2 else "cd_z0.5"
         self.expect: dict[str, dict] = {}
         self.fresh_trees: dict[str, dict] = {}
         self.binnings: dict[str, tuple | None] = {}
@@ -310,18 +315,18 @@ class Scenario:
                     if w == "corrfunc_file":
                         self.cf_old.to_file(os.path.join(self.tpl, "out", "cf.hdf"))
                     else:
-                        self.sd_old.to_files(os.path.join(self.tpl, "out", "cd"))
+                        self.sd_old.to_files(os.path.join(self.tpl, "out", self.cd_name))
                 # what a completed write reads back as (text files round)
                 done = os.path.join(root, "done_io")
                 os.makedirs(done)
                 self.cf_new.to_file(os.path.join(done, "cf.hdf"))
                 self.cf_old.to_file(os.path.join(done, "cf_old.hdf"))
-                self.sd_new.to_files(os.path.join(done, "cd"))
+                self.sd_new.to_files(os.path.join(done, self.cd_name))
                 self.sd_old.to_files(os.path.join(done, "cd_old"))
                 self.io_expect = dict(
                     cf_new=orc.corrfunc_state(yaw.CorrFunc.from_file(os.path.join(done, "cf.hdf"))),
                     cf_old=orc.corrfunc_state(yaw.CorrFunc.from_file(os.path.join(done, "cf_old.hdf"))),
-                    cd_new=orc.sampled_state(self.sd_cls.from_files(os.path.join(done, "cd"))),
+                    cd_new=orc.sampled_state(self.sd_cls.from_files(os.path.join(done, self.cd_name))),
                     cd_old=orc.sampled_state(self.sd_cls.from_files(os.path.join(done, "cd_old"))),
                 )
             else:
@@ -362,7 +367,7 @@ class Scenario:
     def next_use_spec(self) -> dict:
         """Everything the next use needs, as plain data: it runs in a new process (child of the
         zygote forked before this process touched the library)."""
-        keys = ("base", "io_expect", "sd_cls", "case", "expect", "binnings", "fresh_trees", "fresh_meas", "old_trees")
+        keys = ("base", "io_expect", "sd_cls", "case", "expect", "binnings", "fresh_trees", "fresh_meas", "old_trees", "cd_name")
         return {k_: self.__dict__[k_] for k_ in keys if k_ in self.__dict__}
 
     def next_use_binnings(self) -> list[str]:
@@ -450,7 +455,7 @@ class Scenario:
             elif w == "corrfunc_file":
                 self.cf_new.to_file(os.path.join(workdir, "out", "cf.hdf"))
             elif w == "corrdata_files":
-                self.sd_new.to_files(os.path.join(workdir, "out", "cd"))
+                self.sd_new.to_files(os.path.join(workdir, "out", self.cd_name))
 
     # ---- next use (runs in a fresh recovery child, shim disarmed)
     def next_use(self, workdir: str, which: str = "new") -> dict:
@@ -464,7 +469,7 @@ class Scenario:
                         got = orc.corrfunc_state(yaw.CorrFunc.from_file(os.path.join(workdir, "out", "cf.hdf")))
                         new, old = self.io_expect["cf_new"], self.io_expect["cf_old"]
                     else:
-                        got = orc.sampled_state(self.sd_cls.from_files(os.path.join(workdir, "out", "cd")))
+                        got = orc.sampled_state(self.sd_cls.from_files(os.path.join(workdir, "out", self.cd_name)))
                         new, old = self.io_expect["cd_new"], self.io_expect["cd_old"]
                 except Exception as err:  # noqa: BLE001
                     return dict(cls="ERROR", detail=type(err).__name__)
@@ -596,7 +601,10 @@ def _run_parallel_case(case: dict) -> dict:
             shutil.copytree(sc.tpl, work)
             sim = Sim(case.get("sched_seed", 0), policy=case.get("policy", "prng"), fs_root=work,
                       cores=case.get("workers", 2), step_cap=80_000)
-            if kill_at is not None:
+            if kill_at is not None and case.get("kill_mode", "all") == "main":
+                sim.faults["kill_main_at"] = kill_at
+                sim.faults["timeouts_fire"] = 0
+            elif kill_at is not None:
                 sim.faults["kill_all_at"] = kill_at
             with fakemp.patched(sim):
                 verdict = sim.run(sc.work, work)
@@ -620,7 +628,16 @@ def _run_parallel_case(case: dict) -> dict:
         violation = None
         for k in ks:
             sim, verdict = simulate(k)
-            if verdict != "killed_all":
+            main_only = case.get("kill_mode", "all") == "main"
+            if main_only:
+                probes["main_process_killed_alone"] = probes.get("main_process_killed_alone", 0) + 1
+                if not sim.faults.get("_fired", {}).get("kill_main"):
+                    sim.cleanup()  # the main process had finished before step k: nothing was killed
+                    continue
+                if str(verdict) == "step_cap":
+                    sim.cleanup()
+                    return dict(verdict="harness_error", error=f"kill-main@{k}/{nsteps}: verdict {verdict}")
+            elif verdict != "killed_all":
                 sim.cleanup()
                 return dict(verdict="harness_error", error=f"kill-all@{k}/{nsteps}: verdict {verdict}")
             h = _tree_hash(snap)
@@ -649,7 +666,7 @@ def _run_parallel_case(case: dict) -> dict:
                     sig = dict(property=PROP, workload=case["workload"], prior_state=case.get("prior") or case.get("variant") or "-",
                                op=opsig, next_use=v.get("next_use", "open"), outcome=v.get("outcome", "silent_wrong"))
                     violation = dict(signature=sig, focus=k, tail=[list(map(str, e)) for e in log[max(0, k - 12): k + 1]],
-                                     detail=f"whole process group killed at scheduler step {k}/{nsteps} (next event would have been {ev}): {v.get('detail')}")
+                                     detail=f"{'main process alone' if main_only else 'whole process group'} killed at scheduler step {k}/{nsteps} (next event would have been {ev}): {v.get('detail')}")
             subs.append(dict(digest=hashlib.sha256(f"{case['workload']}:{h}".encode()).hexdigest(),
                              nontrivial=h not in (sc.prior_hash, done_hash), steps=k))
             if violation is not None:
